@@ -23,6 +23,18 @@ import tensorly  # noqa: E402
 from tensorly.backend.core import Backend  # noqa: E402
 
 
+
+def _is_concrete(x):
+    """plain Python / numpy numbers (or nested lists of them): no symbolic tensor, scalar or size involved"""
+    if isinstance(x, (builtins.int, float, complex, np.number, np.bool_)):
+        return True
+    if isinstance(x, np.ndarray):
+        return x.dtype != object
+    if isinstance(x, (list, tuple)):
+        return len(x) > 0 and builtins.all(_is_concrete(e) for e in x)
+    return False
+
+
 class GBackend(Backend, backend_name="vtsym"):
     """Contracts of the numerical primitives on GTensors.  Anything not defined here raises EngineError
     (=> undecided), never a silent default."""
@@ -199,6 +211,8 @@ class GBackend(Backend, backend_name="vtsym"):
     @staticmethod
     def max(tensor, axis=None):
         G.log("max")
+        if _is_concrete(tensor):
+            return np.max(tensor, axis=axis)   # concrete numbers: what the numpy backend computes
         if axis is not None:
             raise EngineError("max along an axis in E1-generic")
         return G.opaque_scalar("max", G.lift(tensor))
@@ -206,6 +220,8 @@ class GBackend(Backend, backend_name="vtsym"):
     @staticmethod
     def min(tensor, axis=None):
         G.log("min")
+        if _is_concrete(tensor):
+            return np.min(tensor, axis=axis)
         if axis is not None:
             raise EngineError("min along an axis in E1-generic")
         return G.opaque_scalar("min", G.lift(tensor))
